@@ -6,6 +6,9 @@ import os
 
 from . import extract as _extract
 
+import re
+_BODY_HEAD = re.compile(rb'^\{"id":("(?:[^"\\]|\\.)*"),"file":"(?:[^"\\]|\\.)*","line":(\d+),')
+
 NODE_KEYS = ('init', 'condvar', 'cond', 'then', 'else', 'inc', 'var', 'range', 'body', 'val', 'sub')
 
 
@@ -162,15 +165,40 @@ class Facts:
         return r[0]
 
     def body(self, fn):
+        """Compact AST of a function definition (parsed lazily, one function at a time)."""
         u = fn['unit']
         if u not in self._bodies:
-            m = {}
-            with open(os.path.join(self.dir, u + '.body.jsonl')) as f:
-                for line in f:
-                    d = json.loads(line)
-                    m.setdefault((d['id'], d['line']), d)
-            self._bodies[u] = m
-        return self._bodies[u].get((fn['id'], fn['line']))
+            # index: (id, line) -> (offset, length); the line prefix is {"id":"...","file":"...","line":N,
+            idx = {}
+            path = os.path.join(self.dir, u + '.body.jsonl')
+            with open(path, 'rb') as f:
+                data = f.read()
+            pos = 0
+            n = len(data)
+            while pos < n:
+                end = data.find(b'\n', pos)
+                if end < 0:
+                    end = n
+                head = data[pos:pos + 4096]
+                m = _BODY_HEAD.match(head)
+                if m:
+                    key = (json.loads(m.group(1).decode('utf-8')), int(m.group(2)))
+                    idx.setdefault(key, (pos, end))
+                else:
+                    d = json.loads(data[pos:end])
+                    idx.setdefault((d['id'], d['line']), (pos, end))
+                pos = end + 1
+            self._bodies[u] = (data, idx, {})
+        data, idx, cache = self._bodies[u]
+        key = (fn['id'], fn['line'])
+        if key in cache:
+            return cache[key]
+        loc = idx.get(key)
+        if loc is None:
+            return None
+        d = json.loads(data[loc[0]:loc[1]])
+        cache[key] = d
+        return d
 
     def all_fns(self):
         for v in self.fns.values():
